@@ -17,10 +17,11 @@ def gen_comp_spec(rng):
     from .sched import gen_shape
 
     sp = gen_shape(rng, nmin=2, nmax=7, flags=True, reuse=True, mc_max=3, seq_rate=0.1)
-    npar = rng.randint(0, 2)
+    npar = rng.randint(0, 3)
     ndef = rng.randint(0, npar)
-    sp["params"] = ["p%d" % i for i in range(npar)]
-    sp["defaults"] = {"p%d" % i: (None if rng.random() < 0.3 else rng.choice([("D", i), 0, ""])) for i in range(npar - ndef, npar)}
+    # (parameter names in no particular order: declaration order is what counts, not the alphabet - p9 before p10, zz before aa)
+    sp["params"] = rng.sample(["zz", "p0", "aa", "m5", "p10", "p9"], npar) if rng.random() < 0.6 else ["p%d" % i for i in range(npar)]
+    sp["defaults"] = {sp["params"][i]: (None if rng.random() < 0.3 else rng.choice([("D", i), 0, ""])) for i in range(npar - ndef, npar)}
     for nd in sp["nodes"]:
         nd["args"] = [a for a in nd["args"] if a[0] != "p"]
         for p in sp["params"]:
